@@ -63,10 +63,17 @@ pub assume_specification<T: Default, E> [Result::<T, E>::unwrap_or_default] (r: 
 ;
 
 pub assume_specification<T: Clone> [<[T]>::to_vec] (s: &[T]) -> (r: Vec<T>)
-    ensures r@.len() == s@.len(),
+    ensures r@.len() == s@.len(), forall|i: int| 0 <= i < s@.len() ==> vstd::pervasive::cloned::<T>(#[trigger] s@[i], r@[i]),
 ;
+/// `*x` for a Deref type, as a relation between the owner and the target it derefs to
+pub uninterp spec fn vx_derefs_to<T: core::ops::Deref>(owner: &T, target: &T::Target) -> bool;
+/// a String derefs to the str with the same characters
+pub broadcast proof fn axiom_string_derefs_to(s: &String, t: &str)
+    ensures #[trigger] vx_derefs_to::<String>(s, t) ==> t@ == s@
+{ admit(); }
+//@broadcast axiom_string_derefs_to
 pub assume_specification<T> [Option::<T>::as_deref] (o: &Option<T>) -> (r: Option<&<T as core::ops::Deref>::Target>) where T: core::ops::Deref
-    ensures o is Some <==> r is Some,
+    ensures o is Some <==> r is Some, r is Some ==> vx_derefs_to::<T>(&o->Some_0, r->Some_0),
 ;
 
 /// a String is determined by its characters: the view has a left inverse.  (Stated with one trigger
@@ -112,13 +119,6 @@ pub broadcast proof fn axiom_maps_str_key_to_value<V>(m: Map<String, V>, k: &str
 { admit(); }
 //@broadcast axiom_contains_str_key
 //@broadcast axiom_maps_str_key_to_value
-
-/// slice::Iter::fold: accepted with the closure's precondition obligation; its value is left
-/// unspecified here (fold semantics are stated where needed as an explicit assumption)
-pub assume_specification<'a, T, B, F: FnMut(B, &'a T) -> B> [core::slice::Iter::<'a, T>::fold] (it: core::slice::Iter<'a, T>, init: B, f: F) -> (r: B)
-    requires
-        forall|b: B, x: &'a T| #[trigger] f.requires((b, x)),
-;
 
 /// Text produced by `{}` (Display) and `{:?}`-style (Debug and other flags: uninterpreted) formatting
 pub trait VxDisplay {
